@@ -356,3 +356,39 @@ def hpl_bound_names(h):
 
 def hpl_has_this(h):
     return any(type(x).__name__ == 'HplThisMessage' for x in E._walk(h))
+
+
+def derive_with_but(h, limit=2):
+    """[(label, h2)]: trees obtained from h through the copy-with-changes API (`but`), generally with another meaning:
+    operands of the root swapped, the root quantifier flipped, an operand replaced by its sibling.  Used for
+    histories "call f(h); derive h2 from h; call f(h2)" - nothing remembered about h may leak into the answer for h2."""
+    out = []
+    is_pred = bool(getattr(h, 'is_predicate', False))
+    if is_pred and getattr(h, 'is_vacuous', False):
+        return out
+    e = h.condition if is_pred else h
+    cands = []
+    t = type(e).__name__
+    try:
+        if t == 'HplBinaryOperator':
+            cands.append(('swap-operands', lambda: e.but(operand1=e.operand2, operand2=e.operand1)))
+            cands.append(('second-operand-twice', lambda: e.but(operand1=e.operand2)))
+        elif t == 'HplQuantifier':
+            from hpl.ast.expressions import QuantifierType
+            other = QuantifierType.SOME if e.is_universal else QuantifierType.ALL
+            cands.append(('flip-quantifier', lambda: e.but(quantifier=other)))
+        elif t == 'HplUnaryOperator' and type(e.operand).__name__ == 'HplBinaryOperator':
+            inner = e.operand
+            cands.append(('swap-inner-operands', lambda: e.but(operand=inner.but(operand1=inner.operand2, operand2=inner.operand1))))
+    except Exception:
+        return out
+    for label, thunk in cands[:limit]:
+        try:
+            e2 = thunk()
+            if e2 is e or e2 == e:
+                continue
+            h2 = h.but(expression=e2) if is_pred else e2
+        except Exception:
+            continue
+        out.append((label, h2))
+    return out
